@@ -282,6 +282,7 @@ class MCNP_Problem:
                             NumberConflictError,
                             ParsingError,
                             UnknownElement,
+                            UnsupportedFeature,
                         ) as e:
                             if check_input:
                                 warnings.warn(
